@@ -234,7 +234,7 @@ void set_ops(LS &L) {
   Model &m = L.m;
   switch (gen(5)) {
   case 0: { bool b = gen(2); HX_API_V("p_socket_set_blocking", L.id, false, p_socket_set_blocking(L.s, b)); m.blocking = b; break; }
-  case 1: { static const int ts[] = {0, 1, 50, 1000, 60000, -5}; int t = ts[gen(6)]; HX_API_V("p_socket_set_timeout", L.id, false, p_socket_set_timeout(L.s, t)); m.timeout = t < 0 ? 0 : t; break; }
+  case 1: { static const int ts[] = {0, 1, 50, 1000, 60000, -5, -1, 4294968, 2147483647}; int t = ts[gen(20) == 0 ? 6 + gen(3) : gen(6)];  /* rarely: -1, and values whose micro/nanosecond form needs more than 32 bits */ HX_API_V("p_socket_set_timeout", L.id, false, p_socket_set_timeout(L.s, t)); m.timeout = t < 0 ? 0 : t; break; }
   case 2: { bool kalive = gen(2); HX_API_V("p_socket_set_keepalive", L.id, false, p_socket_set_keepalive(L.s, kalive));
             if (!m.closed) m.keepalive = kalive;      // on a closed socket the option cannot be applied: the getter keeps its value
             break; }
@@ -361,6 +361,15 @@ void scenario_client() {
     }
     else {
       if (!w.ok && !(T > 0 && T < 60000000ULL)) violate("wait_failed", "p_socket_io_condition_wait", "waiting for the connection failed with code %d", w.code);
+      if (w.ok && target <= 2 && gen(4) == 0) {
+        // the caller does not ask for the result: the connection is established all the same and data can be sent
+        probe("state.connected_without_asking");
+        { kern::RawScope raw; struct pollfd pf{S->p_lfd, POLLIN, 0}; simk_poll(&pf, 1, 1000); S->p_cfd = simk_accept(S->p_lfd, nullptr, nullptr); if (S->p_cfd >= 0) S->raw_fds.push_back(S->p_cfd); }
+        IoResult sr = io_call(A, IO_SEND, 5);
+        if (!sr.ok) violate("send_failed_on_established_connection", "p_socket_send", "send on a connection that the wait reported as established failed with code %d", sr.code);
+        check_getters(A, "send after an unchecked connect");
+        return;
+      }
       if (w.ok) {
         PError *e = nullptr;
         pboolean okc = HX_API("p_socket_check_connect_result", 0, false, p_socket_check_connect_result(A.s, &e));
@@ -380,7 +389,8 @@ void scenario_client() {
     } else {
       if (r.ok) violate("call_succeeded_with_nothing_to_do", "p_socket_connect", "connect to a listener with a full backlog succeeded");
       if (r.code != P_ERROR_IO_TIMED_OUT) violate("timeout_wrong_error", "p_socket_connect", "stalled connect with timeout %d ms failed with code %d, expected TIMED_OUT", m.timeout, r.code);
-      if (now_ns() - t0 < T) violate("timed_out_early", "p_socket_connect", "stalled connect with timeout %d ms gave up after %llu us", m.timeout, (unsigned long long)((now_ns() - t0) / 1000));
+      // (the simulated kernel itself gives a stalled attempt up after ~130 s with ETIMEDOUT: a longer socket timeout never gets its turn)
+      if (now_ns() - t0 < T && now_ns() - t0 < 125000000000ULL) violate("timed_out_early", "p_socket_connect", "stalled connect with timeout %d ms gave up after %llu us", m.timeout, (unsigned long long)((now_ns() - t0) / 1000));
       probe("state.connect_stalled_timed_out");
     }
   }
